@@ -101,6 +101,8 @@ def tb_fingerprint(exc):
 
 
 def kind_ok(value, announced):
+    if not isinstance(announced, type):
+        return False          # the announced datatype must be a class (renderers and numberify dispatch on it with issubclass)
     if value is None:
         return True
     if announced is object:
